@@ -18,9 +18,18 @@ for f in sorted(os.listdir(os.path.join(HERE, "props"))):
         if hasattr(mod, "MANIFEST"):
             CLAIMED[m.group(1)] = mod.MANIFEST
 
-# reasons for properties without a registered check
-NOT_YET = {
+# properties whose check exists but is temporarily not claimed (reason shown in not_applicable)
+HOLD = {
+    "C10": "check exists (tools/props/C10.py, 18 theorems) but is being re-aligned with the repaired printer "
+           "(fix f1e5bcb changed StandardSink::context); not claimed until it passes on the current tree",
+    "C02": "model + correspondence + strategy oracles run (tools/props/C02.py) but no theorem is proved yet; not claimed as proof",
+    "C13": "model + specification + correspondence run (tools/props/C13.py) but no theorem is proved yet; not claimed as proof",
 }
+for _k in HOLD:
+    CLAIMED.pop(_k, None)
+
+# reasons for properties without a registered check
+NOT_YET = dict(HOLD)
 
 ALL = ["C%02d" % i for i in range(1, 20)]
 
